@@ -962,9 +962,30 @@ pub fn uninit<F: Family>(cx: &mut Cx<'_, F>, op: &Op) -> Outcome {
                 return Skipped;
             }
             let Slot { h, ai } = cx.take(g);
+            // variant: a second, still MaybeUninit-typed owner exists while the handle changes its
+            // type (a transient clone, released right afterwards): assume_init "changes the
+            // handle's type but not its allocation, contents or count"
+            let with_sharer = op.c % 2 == 1 && matches!(k, Kind::MuP | Kind::SlMu);
+            let mut shared_exp = None;
             let nh: Handle<F> = tracked(|| unsafe {
                 match h {
                     Handle::UniMuP(u) => Handle::UniP(UniqueArc::assume_init(u)),
+                    Handle::MuP(x) if with_sharer => {
+                        let sharer = x.clone();
+                        let a = x.assume_init();
+                        let (c, p0, p1) = (Arc::count(&a), a.heap_ptr() as usize, sharer.heap_ptr() as usize);
+                        shared_exp = Some((c, p0, p1));
+                        drop(sharer);
+                        Handle::ArcP(a)
+                    }
+                    Handle::SlMu(x) if with_sharer => {
+                        let sharer = x.clone();
+                        let a = x.assume_init();
+                        let (c, p0, p1) = (Arc::count(&a), a.heap_ptr() as usize, sharer.heap_ptr() as usize);
+                        shared_exp = Some((c, p0, p1));
+                        drop(sharer);
+                        Handle::Sl(a)
+                    }
                     Handle::MuP(x) => Handle::ArcP(x.assume_init()),
                     Handle::UniSlMu(u) => Handle::UniSl(UniqueArc::assume_init_slice(u)),
                     Handle::SlMu(x) => Handle::Sl(x.assume_init()),
@@ -994,9 +1015,17 @@ pub fn uninit<F: Family>(cx: &mut Cx<'_, F>, op: &Op) -> Outcome {
                 };
             });
             probes::hit(P_ASSUME_INIT);
-            let _ = what;
+            if let Some((c, p0, p1)) = shared_exp {
+                probes::hit(P_ASSUME_INIT_SHARED);
+                if p0 != p1 {
+                    violation("addr:heap", format!("`{}`: assume_init moved the handle from allocation {:#x} to {:#x}", what, p1, p0));
+                }
+                if c != 2 {
+                    triomphe_verif_rt::count_violation("count-mismatch", format!("`{}`: after assume_init with one other owner alive the count reads {}, 2 owning handles exist", what, c));
+                }
+            }
             cx.put(g, Slot { h: nh, ai });
-            Done(Exp { no_rmw: true, no_alloc: true, ..Exp::default() })
+            Done(Exp { no_rmw: !with_sharer, no_alloc: true, ..Exp::default() })
         }
         _ => Skipped,
     }
